@@ -85,14 +85,11 @@ E1_THOROUGH = {
 E1_NEGATIVE = {
     "neg_clamp": ("Counter", cfg(C_BASE, Mutant="clamp_off_by_one"), C_INV, False),
     "neg_skip": ("Counter", cfg(C_BASE, SrcLen=2, Mutant="skip_len_minus_1", OpKinds={"next", "chunk", "skip", "hasmore"}), C_INV, False),
-    "neg_foreach": ("Counter", cfg(C_BASE, Sizes={2}, Mutant="foreach_stops_short", OpKinds={"next", "foreach"}), C_INV, False),
     "neg_clone": ("Counter", cfg(C_BASE, NT=0, MaxOps=0, OwnerOps=4, Sizes={1}, Mutant="clone_restarts", OpKinds={"next", "clone"}), C_INV, False),
     "neg_relaxed": ("Ticket", cfg(T_BASE, OrdCurrent="Relaxed"), T_INV, True),
     "neg_skipmax": ("Ticket", cfg(T_BASE, FixA=False, MaxOps=3, Sizes={2}, OpKinds={"next", "chunk", "skip", "hasmore"}), T_INV, True),
     "neg_panic": ("Ticket", cfg(T_BASE, FixH=False, PanicAt=1, Sizes={2}, OpKinds={"next", "chunk"}), T_INV, True),
     "neg_revive": ("Ticket", cfg(T_BASE, Revive=1, SrcLen=1, Sizes={2}, Mutant="short_chunk_no_completed", OpKinds={"next", "chunk", "bnew", "bnext"}), T_REVIVE_INV, True),
-    "neg_publish": ("Ticket", cfg(T_BASE, Mutant="publish_actual", SrcLen=1, Sizes={2}, OpKinds={"next", "chunk"}), T_INV, True),
-    "neg_serve": ("Ticket", cfg(T_BASE, Mutant="serve_less", Sizes={2}, OpKinds={"next", "chunk"}), T_INV, True),
 }
 
 
